@@ -128,6 +128,9 @@ func Note(v interface{})               {}
 func Sample(key string, v interface{}) {}
 func Concretize(x int) int             { return x }
 func SetUnwind(n int)                  {}
+
+// Stop records a failed assertion with the given id text and ends the current path.
+func Stop(msg string) { Failures = append(Failures, msg); panic("verifmodel.Stop: " + msg) }
 func IsConcrete(v interface{}) bool    { return true }
 func Ite(c bool, a, b int) int {
 	if c {
